@@ -96,7 +96,7 @@ RunCmds(t, cs) == IF cs = <<>> THEN t ELSE RunCmds(Step(t, Head(cs)), Tail(cs))
 (* the application's record in the form RefTerm!Intended expects *)
 AppRow(s) == [x \in 1..N |-> <<IF s[x].z THEN 0 ELSE s[x].g, s[x].w, IF s[x].fg = 0 THEN 0 ELSE s[x].fg, 0, 0, 0, s[x].at, s[x].ln, TW(s[x].g)>>]
 
-Cursors == {[vis |-> FALSE, col |-> 1, shape |-> 2]} \cup {[vis |-> TRUE, col |-> c, shape |-> sh] : c \in {1, N}, sh \in {2, 4}}
+Cursors == {[vis |-> FALSE, col |-> 1, shape |-> 2], [vis |-> FALSE, col |-> N, shape |-> 4]} \cup {[vis |-> TRUE, col |-> c, shape |-> sh] : c \in {1, N}, sh \in {2, 4}}
 
 Init == /\ last = [x \in 1..N |-> Zero] /\ curLast = [vis |-> FALSE, col |-> 1, shape |-> 0]
         /\ refresh = TRUE                       \* the first frame after start-up is a full one
